@@ -1,6 +1,6 @@
 """Per-property check plans: which model configurations TLC explores and on
 which systems the emitted behaviours are replayed."""
-from .core import Report, tour_stage, walk_stage, chunk_stage, crash_stage, conc_stage, fuzz_stage
+from .core import Report, tour_stage, walk_stage, chunk_stage, crash_stage, conc_stage, fuzz_stage, repotests_stage
 from . import core
 
 ALL4 = ["mem", "bolt", "multimem", "multios"]
@@ -66,6 +66,7 @@ def c02(tier, seed, work):
                store_consts(CfgName="single", Buckets={"bkt1"}, Bodies={"x1"},
                             OpNames={"DeleteBucket", "ForceDelete", "PutObject", "DeleteObject", "GetObject", "ListObjects"}),
                ["singlemem", "singleos"], **st)
+    repotests_stage(rep, work, "repository-tests (s3mem state trace)")
     # the Go API path: the same histories through the Backend methods, without the HTTP front end (harness/api.go)
     tour_stage(rep, work, "go-api-store", "MC_Store",
                store_consts() if thorough else store_consts(KeySetName="nest2", Bodies={"x1"}), ALL4, addr="api", **st)
@@ -120,7 +121,10 @@ def c05(tier, seed, work):
     # number of status changes, reads, version deletes in between
     tour_stage(rep, work, "ver-1k-2v", "MC_Store",
                store_consts(Buckets={"bkt1"}, KeySetName="a", CfgName="mem", OpNames=VER_OPS, MaxVids=2, Ghosts=False),
-               ["mem"], **st)
+               ["mem"], memtrace=tier == "thorough", **st)
+    # direction B from inside the backend: the repository's own tests run with the s3mem state hooks on; every
+    # mutation's resulting version stack must be an outcome of the specification (TraceMem.tla)
+    repotests_stage(rep, work, "repository-tests (s3mem state trace)")
     # the Go API path: VersionedBackend methods called directly
     tour_stage(rep, work, "go-api-ver-1k-2v", "MC_Store",
                store_consts(Buckets={"bkt1"}, KeySetName="a", CfgName="mem", OpNames=VER_OPS, MaxVids=2, Ghosts=False),
